@@ -1,7 +1,7 @@
 """Re-run every kept seeded change against the checks recorded as catching it (meta.json: detected_by) and report
 the ones that are no longer caught with the current generators/oracles.
 
-usage: seeded_regress.py [NAME-PREFIX ...]      (scratch worktree /tmp/verif_regress; never touches /repo)
+usage: seeded_regress.py [--after=NAME] [NAME-PREFIX ...]      (stops at the first recorded check that still catches; scratch worktree /tmp/verif_regress; never touches /repo)
 """
 import glob
 import json
@@ -25,7 +25,11 @@ lost = []
 n = 0
 for d in sorted(glob.glob(os.path.join(VERIF, "seeded", "*"))):
     name = os.path.basename(d)
-    if sys.argv[1:] and not any(name.startswith(p) for p in sys.argv[1:]):
+    args = [a for a in sys.argv[1:] if not a.startswith("--after=")]
+    after = next((a[len("--after="):] for a in sys.argv[1:] if a.startswith("--after=")), None)
+    if after is not None and name <= after:
+        continue
+    if args and not any(name.startswith(p) for p in args):
         continue
     meta = json.load(open(os.path.join(d, "meta.json")))
     det = meta.get("detected_by", [])
@@ -39,7 +43,10 @@ for d in sorted(glob.glob(os.path.join(VERIF, "seeded", "*"))):
         continue
     n += 1
     still = []
-    for chk in det:
+    cost = {"C02": 9, "C05": 3, "C07": 3, "C08": 3, "C03": 2, "C09": 2}
+    for chk in sorted(det, key=lambda c: (cost.get(c, 1), c)):  # cheapest first; one catching check is enough
+        if still and not still[-1].endswith("(harness-error)"):
+            break
         rr = sh([os.path.join(VERIF, "check"), chk, "--tier", "quick", "--no-write"], env=dict(os.environ, VERIF_REPO=WT), cwd=VERIF)
         if rr.returncode == 1:
             still.append(chk)
